@@ -1,0 +1,96 @@
+//go:build verif
+
+// Package c15 re-exports, for the C15 verification harness only, the parts of
+// the internal packages the snapshot chunk transfer check drives. Compiled
+// only with -tags verif.
+package c15
+
+import (
+	"github.com/lni/dragonboat/v4/internal/fileutil"
+	"github.com/lni/dragonboat/v4/internal/rsm"
+	"github.com/lni/dragonboat/v4/internal/server"
+	"github.com/lni/dragonboat/v4/internal/settings"
+	"github.com/lni/dragonboat/v4/internal/transport"
+	"github.com/lni/dragonboat/v4/internal/vfs"
+	pb "github.com/lni/dragonboat/v4/raftpb"
+)
+
+type (
+	// Chunk is the receiver.
+	Chunk = transport.Chunk
+	// TrackedInfo is a copy of one tracked stream.
+	TrackedInfo = transport.VerifTrackedInfo
+	// Sink is the streaming mode chunk sink.
+	Sink = transport.Sink
+	// IFS is the file system interface.
+	IFS = vfs.IFS
+	// File is a file of IFS.
+	File = vfs.File
+	// SSMeta is the snapshot metadata used by the stream mode sender.
+	SSMeta = rsm.SSMeta
+	// SnapshotWriter writes snapshot files.
+	SnapshotWriter = rsm.SnapshotWriter
+	// ChunkWriter is the stream mode sender.
+	ChunkWriter = rsm.ChunkWriter
+)
+
+var (
+	// NewChunk is transport.NewChunk.
+	NewChunk = transport.NewChunk
+	// Tracked lists the tracked streams.
+	Tracked = transport.VerifTracked
+	// ChunkTick returns the receiver clock.
+	ChunkTick = transport.VerifChunkTick
+	// SetChunkTimers overrides gc interval and timeout.
+	SetChunkTimers = transport.VerifSetChunkTimers
+	// ChunkTimers returns gc interval and timeout.
+	ChunkTimers = transport.VerifChunkTimers
+	// SetSnapshotChunkSize overrides the sender chunk size.
+	SetSnapshotChunkSize = transport.VerifSetSnapshotChunkSize
+	// SetMaxConcurrentSlot overrides the receiver slot limit.
+	SetMaxConcurrentSlot = transport.VerifSetMaxConcurrentSlot
+	// GetChunks is the sender's getChunks.
+	GetChunks = transport.VerifGetChunks
+	// LoadChunkData is the sender's loadChunkData.
+	LoadChunkData = transport.VerifLoadChunkData
+	// SendSnapshot runs the file mode sender.
+	SendSnapshot = transport.VerifSendSnapshot
+	// StreamJob starts a streaming mode sender job.
+	StreamJob = transport.VerifStreamJob
+	// NewMemFS returns the in-memory file system.
+	NewMemFS = vfs.NewMemFS
+	// NewSnapshotWriter creates a snapshot file writer.
+	NewSnapshotWriter = rsm.NewSnapshotWriter
+	// NewChunkWriter creates the stream mode sender.
+	NewChunkWriter = rsm.NewChunkWriter
+	// MkdirAll creates a directory and its parents.
+	MkdirAll = fileutil.MkdirAll
+	// MarkDirAsDeleted marks a replica's snapshot root as removed.
+	MarkDirAsDeleted = fileutil.MarkDirAsDeleted
+	// GetFlagFileContent reads a flag file.
+	GetFlagFileContent = fileutil.GetFlagFileContent
+	// GetSnapshotDirName returns the final directory name of an index.
+	GetSnapshotDirName = server.GetSnapshotDirName
+	// GetSnapshotFilename returns the snapshot file name of an index.
+	GetSnapshotFilename = server.GetSnapshotFilename
+)
+
+const (
+	// SnapshotFlagFilename is the name of the flag file in a snapshot dir.
+	SnapshotFlagFilename = fileutil.SnapshotFlagFilename
+	// SnapshotChunkSize is the hard chunk size.
+	SnapshotChunkSize = settings.SnapshotChunkSize
+	// SnapshotHeaderSize is the size of the snapshot file header.
+	SnapshotHeaderSize = rsm.HeaderSize
+)
+
+// SoftSettings returns the receiver related soft settings.
+func SoftSettings() (gcTick uint64, timeoutTick uint64, slots uint64) {
+	return settings.Soft.SnapshotGCTick, settings.Soft.SnapshotChunkTimeoutTick,
+		settings.Soft.MaxConcurrentStreamingSnapshot
+}
+
+// Exist reports whether a path exists.
+func Exist(name string, fs vfs.IFS) (bool, error) { return fileutil.Exist(name, fs) }
+
+var _ = pb.Chunk{}
